@@ -345,4 +345,44 @@ theorem lookupActor_lt (actors : List Actor) (a : Actor) (i : Nat)
   have := lookupActor_some actors a i h
   exact (List.getElem?_eq_some_iff.mp this).1
 
+/-- in a table without duplicates (the `OpSet` actor table is strictly sorted) the index holding an
+    actor is unique: any search — the linear one of the model, the binary one of the Rust — finds it -/
+theorem lookupActor_eq_of_nodup (T : List Actor) (hnd : T.Nodup) (i : Nat) (a : Actor)
+    (h : T[i]? = some a) : lookupActor T a = some i := by
+  induction T generalizing i with
+  | nil => simp at h
+  | cons x rest ih =>
+    have hnd' := List.nodup_cons.mp hnd
+    simp only [lookupActor]
+    by_cases hx : x = a
+    · subst hx
+      cases i with
+      | zero => simp
+      | succ j =>
+        simp only [List.getElem?_cons_succ] at h
+        exact absurd (List.mem_of_getElem? h) hnd'.1
+    · cases i with
+      | zero => simp only [List.getElem?_cons_zero, Option.some.injEq] at h; exact absurd h hx
+      | succ j =>
+        simp only [List.getElem?_cons_succ] at h
+        simp [hx, ih hnd'.2 j h]
+
+/-- `exid_to_opid` written without the hint: on a duplicate-free table the hint only short-cuts the
+    search -/
+theorem exidToOpid_eq_lookup (T : List Actor) (hnd : T.Nodup) (ctr : Nat) (a : Actor) (hint : Nat) :
+    exidToOpid T (.id ctr a hint) =
+      (match (lookupActor T a).bind (fun b => opIdTryNew ctr b) with
+       | some o => .ok o
+       | none => .err .objId) := by
+  unfold exidToOpid
+  by_cases hh : T[hint]? = some a
+  · simp only [hh, if_true, lookupActor_eq_of_nodup T hnd hint a hh, Option.bind_some]
+    cases opIdTryNew ctr hint <;> rfl
+  · simp only [hh, if_false]
+    cases lookupActor T a with
+    | none => rfl
+    | some b =>
+      simp only [Option.bind_some]
+      cases opIdTryNew ctr b <;> rfl
+
 end AmVerif.Ids
